@@ -1,8 +1,248 @@
 import Flatland.JsonUtil
+import Flatland.Scalar
+import Flatland.C04
+import Flatland.Spec.C04
+import Flatland.Generated.C04Tables
 open Lean Flatland.J
 namespace Flatland.Run.C04
+open Flatland.Scalar
 
-/-- JSON case in, JSON observation out (stub until the model of C04 is written). -/
-def run (_j : Json) : Except String Json := .error "model runner for C04 not implemented yet"
+/-! JSON glue for the scalar model (shared by the C04 and C18 runners). -/
+
+def hexVal (c : Char) : Option Nat :=
+  if '0' ≤ c && c ≤ '9' then some (c.toNat - 48)
+  else if 'a' ≤ c && c ≤ 'f' then some (c.toNat - 87)
+  else if 'A' ≤ c && c ≤ 'F' then some (c.toNat - 55)
+  else none
+
+/-- Python `hex(i)`: `-0x1f` -/
+def parseHex (s : String) : Except String Int := do
+  let cs := s.toList
+  let (neg, cs) := match cs with | '-' :: r => (true, r) | r => (false, r)
+  let cs ← match cs with | '0' :: 'x' :: r => pure r | _ => throw s!"bad hex int {s}"
+  let mut n : Nat := 0
+  for c in cs do
+    match hexVal c with
+    | some d => n := n * 16 + d
+    | none => throw s!"bad hex digit in {s}"
+  return if neg then - (n : Int) else n
+
+def hexDigit (d : Nat) : Char := if d < 10 then Char.ofNat (48 + d) else Char.ofNat (87 + d)
+
+partial def natHex (n : Nat) (acc : List Char := []) : List Char :=
+  if n < 16 then hexDigit n :: acc else natHex (n / 16) (hexDigit (n % 16) :: acc)
+
+def toHex (i : Int) : String :=
+  let body := "0x" ++ String.ofList (natHex i.natAbs)
+  if i < 0 then "-" ++ body else body
+
+def parseTok (j : Json) : Except String Tok := do
+  return { id := ← cfld j "id", str := ← cfld j "str",
+           fmt := ← optOf chars (← fld j "fmt"),
+           neg := ← optOf bool (← fld j "neg"),
+           truthy := ← bfld j "truthy",
+           toInt := ← optOf (fun x => do parseHex (← str x)) (← fld j "int") }
+
+def natsOf (j : Json) : Except String (List Nat) := listOf nat j
+
+def parseNative (j : Json) : Except String Native := do
+  if isNull j then return .none
+  match (← sfld j "t") with
+  | "str" => return .str (← cfld j "v")
+  | "int" => return .int (← parseHex (← sfld j "v"))
+  | "bool" => return .bool (← bfld j "v")
+  | "date" => match (← natsOf (← fld j "v")) with
+              | [y, m, d] => return .date y m d
+              | _ => throw "bad date"
+  | "time" => match (← natsOf (← fld j "v")) with
+              | [h, mi, s, us] => return .time h mi s us
+              | _ => throw "bad time"
+  | "datetime" => match (← natsOf (← fld j "v")) with
+                  | [y, m, d, h, mi, s, us] => return .datetime y m d h mi s us
+                  | _ => throw "bad datetime"
+  | "float" => return .float (← parseTok (← fld j "tok"))
+  | "decimal" => return .decimal (← parseTok (← fld j "tok"))
+  | "other" => return .other (← cfld j "v") (← bfld j "truthy")
+  | t => throw s!"bad native tag {t}"
+
+def ofNats (l : List Nat) : Json := ofList ofNat l
+
+/-- text in OUTPUT is a list of code points: the harness core splits the driver's output with
+    `str.splitlines()`, which also breaks at U+0085, U+2028, U+2029 -/
+def ofText (s : List Char) : Json := ofList (fun c => ofNat c.toNat) s
+
+def ofNative : Native → Json
+  | .none => Json.null
+  | .str s => obj [("t", "str"), ("v", ofText s)]
+  | .int i => obj [("t", "int"), ("v", Json.str (toHex i))]
+  | .bool b => obj [("t", "bool"), ("v", Json.bool b)]
+  | .date y m d => obj [("t", "date"), ("v", ofNats [y, m, d])]
+  | .time h mi s us => obj [("t", "time"), ("v", ofNats [h, mi, s, us])]
+  | .datetime y m d h mi s us => obj [("t", "datetime"), ("v", ofNats [y, m, d, h, mi, s, us])]
+  | .float t => obj [("t", "float"), ("id", ofChars t.id)]
+  | .decimal t => obj [("t", "decimal"), ("id", ofChars t.id)]
+  | .other text truthy => obj [("t", "other"), ("v", ofText text), ("truthy", Json.bool truthy)]
+
+partial def parseKind (j : Json) : Except String Kind := do
+  match (← sfld j "k") with
+  | "string" => return .string (← bfld j "strip")
+  | "integer" => return .integer (← bfld j "signed") (← nfld j "width")
+  | "float" => return .float (← bfld j "signed")
+  | "decimal" => return .decimal (← bfld j "signed")
+  | "boolean" => return .boolean (← cfld j "true") (← cfld j "false")
+                   (← listOf chars (← fld j "tsyn")) (← listOf chars (← fld j "fsyn"))
+  | "boolean_default" => return Flatland.Generated.C04.booleanDefault
+  | "date" => return .date (← bfld j "strip")
+  | "time" => return .time (← bfld j "strip")
+  | "datetime" => return .datetime (← bfld j "strip")
+  | "constrained" =>
+    let child ← parseKind (← fld j "child")
+    let vj ← fld j "valid"
+    let valid ← match (← sfld vj "v") with
+      | "never" => pure Valid.never
+      | "always" => pure Valid.always
+      | "oneof" => do pure (Valid.oneOf (← listOf parseNative (← fld vj "vals")))
+      | s => throw s!"bad valid {s}"
+    return .constrained child valid
+  | k => throw s!"bad kind {k}"
+
+/-- the opaque float()/Decimal() results recorded by the harness for this case -/
+def parseConv (j : Json) : Except String (Bool → Native → Option (Option Tok)) := do
+  let entries ← (← arr j).mapM fun e => do
+    let dec ← bfld e "dec"
+    let key ← parseNative (← fld e "key")
+    let tok ← optOf parseTok (← fld e "tok")
+    return (dec, key, tok)
+  return fun dec x => (entries.find? fun e => e.1 == dec && e.2.1 == x).map (·.2.2)
+
+/-- the recorded part of `OpaqueStable`: an entry for the empty text is a failure; the text of every
+    recorded result is itself recorded, and converts to nothing or to a value with the same text -/
+def opaqueStableOn (T : Tables) (entries : List (Bool × Native × Option Tok)) : Bool :=
+  entries.all fun (dec, key, tok) =>
+    (if key == .str [] then tok.isNone else true) &&
+    match tok with
+    | none => true
+    | some t =>
+      let text := Flatland.Scalar.Spec.tokText t
+      match entries.find? (fun e => e.1 == dec && e.2.1 == .str (strip T text)) with
+      | none => false
+      | some (_, _, none) => true
+      | some (_, _, some t') => Flatland.Scalar.Spec.tokText t' == text
+
+def parseConvEntries (j : Json) : Except String (List (Bool × Native × Option Tok)) := do
+  (← arr j).mapM fun e => do
+    return (← bfld e "dec", ← parseNative (← fld e "key"), ← optOf parseTok (← fld e "tok"))
+
+def raiseName : Raise → String
+  | .valueError => "ValueError"
+  | .tableMiss => "HARNESS-TABLE-MISS"
+
+def setJson (r : Except Raise SetResult) : Json :=
+  match r with
+  | .error e => obj [("exc", Json.str (raiseName e)), ("flag", Json.null), ("value", Json.null),
+                     ("u", Json.null), ("signals", Json.null)]
+  | .ok r => obj [("exc", Json.null), ("flag", Json.bool r.flag), ("value", ofNative r.st.value),
+                  ("u", ofText r.st.u), ("signals", ofList Json.bool r.signals)]
+
+def envOf (j : Json) : Except String Env := do
+  let conv ← parseConv (fldD j "conv" (Json.arr #[]))
+  return { T := Flatland.Generated.C04.pyTables, conv := conv }
+
+/-- one scalar case: `el.set(x)`, and when that succeeded `el2.set(el.u)` on a fresh element -/
+def runScalar (j : Json) : Except String Json := do
+  let E ← envOf j
+  let k ← parseKind (← fld j "kind")
+  let x ← parseNative (← fld j "x")
+  let r := setScalar E k x
+  let first := setJson r
+  let reset := match r with
+    | .ok res => if res.flag then setJson (setScalar E k (.str res.st.u)) else Json.null
+    | .error _ => Json.null
+  let entries ← parseConvEntries (fldD j "conv" (Json.arr #[]))
+  return obj [("set", first), ("reset", reset),
+              ("opaque_stable", Json.bool (opaqueStableOn Flatland.Generated.C04.pyTables entries))]
+
+open Flatland.C04 in
+partial def parseSchema (j : Json) : Except String Schema := do
+  match (← sfld j "s") with
+  | "scalar" => return .scalar (← parseKind (← fld j "kind"))
+  | "seq" => return .seq (← parseSchema (← fld j "member"))
+  | "dict" =>
+    let fs ← (← afld j "fields").mapM fun f => do
+      match (← arr f) with
+      | [n, sch] => return (← chars n, ← parseSchema sch)
+      | _ => throw "bad field"
+    let pol ← match (← sfld j "policy") with
+      | "subset" => pure Policy.subset | "duck" => pure Policy.duck
+      | p => throw s!"bad policy {p}"
+    return .dict pol (fs.map (·.1)) (fs.map (·.2))
+  | "date" =>
+    match j.getObjVal? "members" with
+    | .ok mj => match (← arr mj) with
+                | [a, b, c] => return .date (← parseKind a) (← parseKind b) (← parseKind c)
+                | _ => throw "bad date members"
+    | .error _ => return .date (.integer true 4) (.integer true 2) (.integer true 2)
+  | "joined" =>
+    let sp ← match (fldD j "splitter" (Json.str "static")) with
+      | .str "static" => pure Splitter.static
+      | .str "commaws" => pure Splitter.commaWs
+      | o => do pure (Splitter.anyOf (← cfld o "anyof"))
+    return .joined (← cfld j "sep") sp (← bfld j "prune") (← parseKind (← fld j "member"))
+  | t => throw s!"bad schema {t}"
+
+open Flatland.C04 in
+partial def parseInput (j : Json) : Except String Input := do
+  match (← sfld j "i") with
+  | "leaf" => return .leaf (← parseNative (← fld j "v"))
+  | "list" => return .list (← (← afld j "v").mapM parseInput)
+  | "dict" =>
+    let ps ← (← afld j "v").mapM fun p => do
+      match (← arr p) with
+      | [k, v] => return (← parseNative k, ← parseInput v)
+      | _ => throw "bad dict item"
+    return .dict ps
+  | t => throw s!"bad input {t}"
+
+def stateJson (st : SState) : Json := obj [("v", ofNative st.value), ("u", ofText st.u)]
+
+open Flatland.C04 in
+partial def elemJson : Elem → Json
+  | .scalar st => stateJson st
+  | .seq ms => obj [("seq", ofList elemJson ms)]
+  | .dict ms => obj [("dict", ofList elemJson ms)]
+  | .date y m d => obj [("date", ofList stateJson [y, m, d])]
+  | .joined ms => obj [("joined", ofList stateJson ms)]
+
+open Flatland.C04 in
+def craiseName : CRaise → String
+  | .scalar r => raiseName r
+  | .keyError => "KeyError"
+  | .typeError => "TypeError"
+  | .unmodelled => "HARNESS-UNMODELLED-INPUT"
+
+/-- a container case: optional preliminary `set(pre)`, then the observed `set(x)` -/
+def runTree (j : Json) : Except String Json := do
+  let E ← envOf j
+  let S ← parseSchema (← fld j "schema")
+  let x ← parseInput (← fld j "x")
+  let start ← match j.getObjVal? "pre" with
+    | .ok pj => if isNull pj then pure (Flatland.C04.blank S) else do
+        match Flatland.C04.setElem E S (Flatland.C04.blank S) (← parseInput pj) with
+        | .ok out => pure out.elem
+        | .error _ => pure (Flatland.C04.blank S)
+    | .error _ => pure (Flatland.C04.blank S)
+  match Flatland.C04.setElem E S start x with
+  | .error e => return obj [("exc", Json.str (craiseName e)), ("flag", Json.null), ("sigs", Json.null),
+                            ("tree", Json.null)]
+  | .ok out =>
+    return obj [("exc", Json.null), ("flag", Json.bool out.flag),
+      ("sigs", ofList (fun (s : Flatland.C04.Sig) => Json.arr #[ofNats s.1, Json.bool s.2]) out.sigs),
+      ("tree", elemJson out.elem)]
+
+def run (j : Json) : Except String Json := do
+  match (← sfld j "mode") with
+  | "scalar" => runScalar j
+  | "tree" => runTree j
+  | m => throw s!"bad mode {m}"
 
 end Flatland.Run.C04
